@@ -37,16 +37,36 @@ class Unsupported(Exception):
 # values
 # ----------------------------------------------------------------------------------------
 class P:
-    """value with non-trivial definedness and/or infinity kind"""
-    __slots__ = ("t", "ok", "inf")
+    """value with non-trivial definedness and/or infinity kind.
+    nan: python bool / z3 Bool - condition under which the IEEE value is DEFINITELY NaN (e.g. log of a negative number);
+    it only refines the not-ok case (ok is false whenever nan is true)."""
+    __slots__ = ("t", "ok", "inf", "nan")
 
-    def __init__(self, t, ok=True, inf=0):
+    def __init__(self, t, ok=True, inf=0, nan=False):
         self.t = t
         self.ok = ok
         self.inf = inf
+        self.nan = nan
 
     def __repr__(self):
-        return f"P({self.t}, ok={self.ok}, inf={self.inf})"
+        return f"P({self.t}, ok={self.ok}, inf={self.inf}, nan={self.nan})"
+
+
+def nan_of(v):
+    if isinstance(v, P):
+        return v.nan
+    if isinstance(v, float):
+        return math.isnan(v)
+    return False
+
+
+def with_nan(v, nan):
+    """attach a definite-NaN condition to a value"""
+    if nan is False:
+        return v
+    t, o, i = split(v)
+    prev = nan_of(v)
+    return P(t, band(o, bnot(nan)), i, bor(prev, nan))
 
 
 def is_z(v):
@@ -449,9 +469,10 @@ def lift_fin(f):
             t, o, i = split(v)
             ts.append(t)
             ok = band(ok, _fin_ok(o, i))
+        nn = bor(*[nan_of(v) for v in vs])
         if ok is False:
             return float("nan")
-        return join(f(*ts), ok)
+        return with_nan(join(f(*ts), ok), nn)
     return g
 
 
@@ -462,6 +483,13 @@ def _sgn_inf(i):
 def add(a, b):
     if not isinstance(a, (P, float)) and not isinstance(b, (P, float)):
         return _add(a, b)
+    nn = bor(nan_of(a), nan_of(b))
+    if nn is not False and not (nn is True):
+        return with_nan(_add_p(a, b), nn)
+    return _add_p(a, b)
+
+
+def _add_p(a, b):
     ta, oa, ia = split(a)
     tb, ob, ib = split(b)
     # inf + finite = inf ; inf + -inf = nan
@@ -481,7 +509,7 @@ def neg(a):
     if not isinstance(a, (P, float)):
         return _neg(a)
     t, o, i = split(a)
-    return join(_neg(t), o, -i)
+    return with_nan(join(_neg(t), o, -i), nan_of(a) if not isinstance(a, float) else False)
 
 
 def sub(a, b):
@@ -493,6 +521,13 @@ def sub(a, b):
 def mul(a, b):
     if not isinstance(a, (P, float)) and not isinstance(b, (P, float)):
         return _mul(a, b)
+    nn = bor(nan_of(a), nan_of(b))
+    if nn is not False and not (nn is True):
+        return with_nan(_mul_p(a, b), nn)
+    return _mul_p(a, b)
+
+
+def _mul_p(a, b):
     ta, oa, ia = split(a)
     tb, ob, ib = split(b)
     if not is_z(ia) and not is_z(ib) and ia == 0 and ib == 0:
@@ -537,7 +572,7 @@ def div(ctx, a, b):
         ok = band(ok, nz)
     if ok is False:
         return float("nan")
-    return join(f(ta, tb), ok)
+    return with_nan(join(f(ta, tb), ok), bor(nan_of(a), nan_of(b)))
 
 
 def cmp(op, a, b, force=False):
@@ -578,7 +613,11 @@ def ite(c, a, b):
         return _ite(c, a, b)
     ta, oa, ia = split(a)
     tb, ob, ib = split(b)
-    return join(_ite(c, ta, tb), bite(c, oa, ob), bite(c, ia, ib))
+    na, nb = nan_of(a), nan_of(b)
+    r = join(_ite(c, ta, tb), bite(c, oa, ob), bite(c, ia, ib))
+    if na is False and nb is False:
+        return r
+    return with_nan(r, bite(c, na, nb))
 
 
 def mx(a, b):
@@ -600,23 +639,26 @@ def _is_int(a):
 
 def isnan(ctx, a):
     t, o, i = split(a)
+    dn = nan_of(a)
     if o is True:
         return False
     if o is False and not is_z(i):
         return i == 0
-    # not provably defined: nan-ness unknown unless infinite
+    # not provably defined: nan-ness unknown unless definitely NaN / infinite
     u = z3.FreshConst(z3.BoolSort(), "isnan")
-    return z3.And(z3.Not(toz(o)), toz(i) == 0, u) if True else u
+    return bor(dn, z3.And(z3.Not(toz(o)), toz(i) == 0, u))
 
 
 def isfinite(ctx, a):
     t, o, i = split(a)
+    dn = nan_of(a)
     if o is True and not is_z(i):
         return i == 0
     if o is False:
         return False
     u = z3.FreshConst(z3.BoolSort(), "isfin")
-    return z3.And(toz(i) == 0, z3.Or(toz(o), u)) if not (o is True) else (toz(i) == 0)
+    r = z3.And(toz(i) == 0, z3.Or(toz(o), u)) if not (o is True) else (toz(i) == 0)
+    return band(bnot(dn), r)
 
 
 # ----------------------------------------------------------------------------------------
@@ -728,6 +770,10 @@ def _encl(kind, c0):
     return q(lo), q(hi)
 
 
+def _is_log(e):
+    return z3.is_app(e) and e.num_args() == 1 and e.decl().kind() == z3.Z3_OP_UNINTERPRETED and e.decl().name() == "LOG"
+
+
 def _exp_atom(ctx, a):
     """EXP(a) with positivity, sign and pairwise monotonicity facts (w.r.t. earlier atoms)"""
     a = z3.simplify(a)
@@ -767,8 +813,8 @@ def _sexp_plain(ctx, t):
         ctx.facts += [e > lo, e < hi]
         res = m(res, e)
     for i, (a, k) in atoms.items():
-        if i in ctx.log_arg and k.denominator == 1:
-            res = m(res, powq(ctx.log_arg[i], k))
+        if _is_log(a) and k.denominator == 1:
+            res = m(res, powq(a.arg(0), k))
         elif k.denominator == 1 and abs(k.numerator) <= 8:
             e = _exp_atom(ctx, a)
             res = m(res, powq(e, k))
@@ -780,6 +826,12 @@ def _sexp_plain(ctx, t):
 
 
 def sexp(ctx, v):
+    r = _sexp_p(ctx, v)
+    nn = nan_of(v)
+    return with_nan(r, nn) if (nn is not False and not isinstance(v, float)) else r
+
+
+def _sexp_p(ctx, v):
     t, o, i = split(v)
     if not isinstance(v, (P, float)):
         return _sexp_plain(ctx, t)
@@ -913,7 +965,16 @@ def slog(ctx, v):
     t, o, i = split(v)
     l, d = _slog_plain(ctx, t)
     if not isinstance(v, (P, float)):
-        return join(l, d)
+        r = join(l, d)
+        if d is True:
+            return r
+        # log of a negative real is NaN (definitely); log(0) = -inf (definitely)
+        neg_arg = DEC.decide(toreal(t) < 0) if is_z(t) else (t < 0)
+        zero_arg = DEC.decide(toreal(t) == 0) if is_z(t) else (t == 0)
+        if zero_arg is not False:
+            rt, ro, ri = split(r)
+            r = P(rt, bor(ro, zero_arg), bite(zero_arg, -1, 0) if is_z(zero_arg) else (-1 if zero_arg else 0))
+        return with_nan(r, neg_arg) if isinstance(r, P) or neg_arg is not False else r
     ok = band(o, d if not is_z(i) else z3.Or(i != 0, toz(d)))
     # log(+inf) = +inf ; log(0) = -inf is treated as not-ok (conservative)
     if not is_z(i):
@@ -989,7 +1050,7 @@ def emap(f, *arrs):
 
 
 def symarr(name, shape, sort=None):
-    sort = sort or z3.RealSort()
+    sort = z3.RealSort() if sort is None else sort
     a = np.empty(shape, dtype=object)
     for idx in np.ndindex(tuple(shape)):
         a[idx] = z3.Const(name + "".join(f"_{i}" for i in idx), sort)
@@ -1336,6 +1397,8 @@ class Interp:
                 sl = [slice(None)] * x.ndim
                 sl[ax] = i
                 cur = x[tuple(sl)] if prev is None else emap(f, prev, x[tuple(sl)])
+                if isinstance(cur, np.ndarray) and cur.shape == ():
+                    cur = cur[()]
                 out[tuple(sl)] = cur
                 prev = cur
             return out
@@ -1784,7 +1847,7 @@ def log_lcm(ctx, t):
     if not is_z(t):
         return 0
     c0, atoms = linform(toreal(t))
-    ds = [k.denominator for i, (a, k) in atoms.items() if i in ctx.log_arg]
+    ds = [k.denominator for i, (a, k) in atoms.items() if _is_log(a)]
     if not ds:
         return 0
     return math.lcm(*ds)
@@ -1813,7 +1876,7 @@ def has_log(ctx, t):
         if i in seen:
             continue
         seen.add(i)
-        if i in ctx.log_arg:
+        if _is_log(e):
             return True
         st.extend(e.children())
     return False
@@ -2028,6 +2091,15 @@ def prove_eq(ctx, assumptions, lhs, rhs, name="", **kw):
     uselog = has_log(ctx, d) if is_z(d) else False
     if not uselog:
         return check(ctx, assumptions, zl == zr, name=name, **kw)
+    # p / q == r with logarithms in the denominator: cross-multiply (q != 0 is part of the definedness obligation)
+    for a_, b_ in ((zl, zr), (zr, zl)):
+        if z3.is_app(a_) and a_.decl().kind() == z3.Z3_OP_DIV and has_log(ctx, a_.arg(1)):
+            if znum(a_.arg(0)) is not None and znum(a_.arg(0)) != 0 and is_z(b_):
+                # c / q == r  <=>  q == c / r   (r != 0 proved first); keeps the logarithms' coefficients numeric
+                st0, m0 = check(ctx, assumptions, b_ != 0, name=name + "[rhs != 0]", **kw)
+                if st0 == "unsat":
+                    return prove_eq(ctx, assumptions, a_.arg(1), a_.arg(0) / b_, name=name + "[inverted]", **kw)
+            return prove_eq(ctx, assumptions, a_.arg(0), _mul(b_, a_.arg(1)), name=name + "[cross-multiplied]", **kw)
     # logarithms present: the direct goal and the exponentiated goal (A = B  <=>  exp(m(A-B)) = 1) race
     mlt = max(1, log_lcm_deep(ctx, d))
     e = _sexp_plain(ctx, _mul(Fraction(mlt), d))
